@@ -166,3 +166,74 @@ Proof. vm_compute. reflexivity. Qed.
 Example C14_ex_oracle :
   log_ok N N.eqb false ex_plan ex_items ex_plan 0 (consume_log (ro_recs (rec_run ex_items INone ex_plan 3))) = true.
 Proof. vm_compute. reflexivity. Qed.
+
+(* ==== composition ==== *)
+(* The plan predicates assumed above are discharged by the plan validators of C02/C04
+   (coq/theories/Compose/PlanRun.v).  [back_plan q] reads a C14 plan in the plan syntax of coq/theories/Plan
+   (hash -> commit number, branch id -> Go int, committer time forgotten); [c04_ok g p] =
+   lifecycleb init p && nothing hibernated at the end && plan_ok g (erase_hb p) is what ./check C04 evaluates on
+   every full plan of the real planner ([plan_ok] alone is C02's validator).  What neither validator inspects is
+   the Commit field of plan[0]: it stays a hypothesis ([head_carriesb]: plan[0].Commit is not nil;
+   [head_firstb]: it is the commit of the first commit action). *)
+From Herc Require Import Compose.PlanRun.
+From Herc Require Plan.Syntax Plan.Graph Plan.Checker Plan.Spec Plan.Lifecycle.
+
+Theorem C14_plan_predicates_composed : forall (g : list (list nat)) (q : list action),
+  Plan.Lifecycle.c04_ok g (back_plan q) = true ->
+  liveb q = true /\ contigb q = true /\ distinctb q = true /\
+  exists oc its r, q = AOther KEmerge oc its :: r.
+Proof. exact validators_imply_predicates. Qed.
+Print Assumptions C14_plan_predicates_composed.
+
+Theorem C14_plan_okb_composed : forall (g : list (list nat)) (q : list action),
+  Plan.Lifecycle.c04_ok g (back_plan q) = true -> head_firstb q = true -> plan_okb q = true.
+Proof. exact plan_okb_composed. Qed.
+Print Assumptions C14_plan_okb_composed.
+
+(* C14_is_merge on validated plans, and what the flag means in terms of the commit graph: the flag an item sees
+   is true exactly when the commit has at least two non-redundant parents (C02's [merge_commit]) *)
+Theorem C14_is_merge_composed : forall (St U : Type) (sm : sem St U) (items : list item)
+    (g : list (list nat)) (q : list action) (nc : N),
+  Plan.Lifecycle.c04_ok g (back_plan q) = true -> head_carriesb q = true ->
+  forall (i : nat) (s : cstep U), nth_error (ro_recs (run St U sm items q nc)) i = Some (RCommit s) ->
+  (cs_merge s = true <-> 2 <= length (replay_branches q (c_id (cs_commit s)))) /\
+  (cs_merge s = true <->
+   exists q1 q2, q1 <> q2 /\ Plan.Graph.nonredundant g (N.to_nat (c_id (cs_commit s))) q1 /\
+                 Plan.Graph.nonredundant g (N.to_nat (c_id (cs_commit s))) q2).
+Proof. exact run_is_merge_composed. Qed.
+Print Assumptions C14_is_merge_composed.
+
+Theorem C14_once_in_order_composed : forall (St U : Type) (sm : sem St U) (items : list item)
+    (g : list (list nat)) (q : list action) (nc : N),
+  Plan.Lifecycle.c04_ok g (back_plan q) = true ->
+  forall s : cstep U, In (RCommit s) (ro_recs (run St U sm items q nc)) ->
+  map (fun c => (k_item c, k_desc c)) (cs_calls s) =
+    firstn (length (cs_calls s)) (combine (seq 0 (length items)) items) /\
+  (forallb complete (cs_calls s) = true -> length (cs_calls s) = length items).
+Proof. exact run_order_composed. Qed.
+Print Assumptions C14_once_in_order_composed.
+
+(* C14_summary needs nothing but [head_firstb]: it stays as it is. *)
+
+Theorem C14_oracle_accepts_model_composed : forall (St U : Type) (sm : sem St U) (items : list item)
+    (g : list (list nat)) (q : list action) (nc : N),
+  Plan.Lifecycle.c04_ok g (back_plan q) = true ->
+  forall ueqb : U -> U -> bool, (forall u, ueqb u u = true) -> head_carriesb q = true ->
+  forall early : bool,
+  (early = true \/ match ro_out (run St U sm items q nc) with
+                   | Done _ _ => True
+                   | Failed (EConsume _ _) => True
+                   | Failed (EMissing _ _) => True
+                   | _ => False
+                   end) ->
+  log_ok U ueqb early q items q 0 (consume_log (ro_recs (run St U sm items q nc))) = true.
+Proof. exact run_log_ok_composed. Qed.
+Print Assumptions C14_oracle_accepts_model_composed.
+
+(* non-vacuity: the real plan [ex_plan] above (two roots 0 and 1 merged by commit 2, hibernation distance 1) is
+   accepted by the validator of C04 for its commit graph; and the validator is not trivially true *)
+Example C14_ex_validated :
+  Plan.Lifecycle.c04_ok [[]; []; [0; 1]] (back_plan ex_plan) = true /\
+  head_firstb ex_plan = true /\ head_carriesb ex_plan = true /\
+  Plan.Lifecycle.c04_ok [[]; []; [0; 1]] (back_plan (removelast ex_plan)) = false.
+Proof. vm_compute. repeat split. Qed.
